@@ -18,7 +18,7 @@ theorem parse_escape_append (v rest : Bytes) :
     · have h92 : c ≠ 92 := fun e => h (Or.inl e)
       have h37 : c ≠ 37 := fun e => h (Or.inr (Or.inl e))
       have h95 : c ≠ 95 := fun e => h (Or.inr (Or.inr e))
-      simp [h, parseLikeGo, h92, h37, h95, ih, lits]
+      simp [parseLikeGo, h92, h37, h95, ih, lits]
 
 theorem anySuffix_iff (f : Bytes → Bool) (s : Bytes) :
     anySuffix f s = true ↔ ∃ t, t <:+ s ∧ f t = true := by
@@ -39,7 +39,7 @@ theorem match_lits_any (v s : Bytes) : matchToks (lits v ++ [.any]) s = true ↔
   induction v generalizing s with
   | nil =>
     simp only [lits, List.map_nil, List.nil_append, List.nil_prefix, iff_true, matchToks, anySuffix_iff]
-    exact ⟨[], List.nil_suffix, by simp [matchToks]⟩
+    exact ⟨[], List.nil_suffix, by simp⟩
   | cons c v ih =>
     cases s with
     | nil => simp [lits, matchToks]
